@@ -106,6 +106,34 @@ void quadCase(Ctx &c, Rng &g, size_t deg) {
         c.violation("C17", "nonzero-without-common-interval", desc);
       c.count("no-common-interval");
     }
+    // weights whose return type is not T (constant weights, so that the
+    // value is exact in every type): the result must be the same integral
+    if (deg == 0 && exactRule) {
+      const R w0 = R(3);
+      R ex0(0), S0(0);
+      const Den e1 = denote(m1), e2 = denote(m2);
+      const AbsM b1 = absOf(m1), b2 = absOf(m2);
+      for (size_t k = lo; common > 0 && k + 1 < hi; k++) {
+        ex0 += w0 * model::pintegral(model::pmul(e1.pc[k], e2.pc[k]), pts[k], pts[k + 1]);
+        const R h = (pts[k + 1] - pts[k]) / 2;
+        S0 += 2 * h * w0 * hsum(b1[k], h) * hsum(b2[k], h);
+      }
+      auto chk = [&](const char *kind, const T &val, const R &factor) {
+        Verdict v = agreeScalar(val, R(ex0 * factor / w0), R(S0 * rabs(factor) / w0 + (S0 == 0 ? R(0) : R(0))));
+        if (!v.ok)
+          c.violation("C17", std::string("weight-return-type/") + kind,
+                      desc + " constant weight of type " + kind + ": " + v.why);
+        c.count(std::string("weight-return-type:") + kind);
+      };
+      chk("int", integrate<nq>([](const T &) { return 3; }, m1, m2), R(3));
+      chk("long", integrate<nq>([](const T &) { return -2L; }, m1, m2), R(-2));
+      chk("bool", integrate<nq>([](const T &) { return true; }, m1, m2), R(1));
+      chk("unsigned", integrate<nq>([](const T &) { return 5u; }, m1, m2), R(5));
+      if constexpr (!std::is_same_v<T, float>)
+        chk("float", integrate<nq>([](const T &) { return 0.5f; }, m1, m2), R(1) / 2);
+      if constexpr (!std::is_same_v<T, double>)
+        chk("double", integrate<nq>([](const T &) { return 0.25; }, m1, m2), R(1) / 4);
+    }
     if (exactRule) {
       const T analytic =
           BilinearForm{w[0] * X<0>{} + w[1] * X<1>{} + w[2] * X<2>{} +
